@@ -33,6 +33,8 @@ pub enum Op {
     AnyAppendNodeFromOther(bool, u8),
     DetachNode(bool, u8),
     RemoveNode(bool, u8),
+    /// the value setter of the node behind an entry (attribute_node_mut / namespace_node_mut)
+    NodeSetValue(bool, u8, u8),
 }
 // first field: true = attributes, false = namespaces
 
@@ -216,6 +218,23 @@ impl Sys {
                 let exp_ret = m.iter().position(|x| x.key == *k).map(|i| m.remove(i).val);
                 if !matches!(op, RemoveFn(..)) && ret != exp_ret {
                     return Err(format!("return value {:?}, expected {:?}", ret, exp_ret));
+                }
+            }
+            NodeSetValue(attr, k, v) => {
+                let vs = val(*attr, *v);
+                let m = unsafe_mut(model(self, *attr));
+                if let Some(x) = m.iter_mut().find(|x| x.key == *k) {
+                    let node = x.node;
+                    let ok = if *attr {
+                        self.xot.attribute_node_mut(node).map(|a| a.set_value(vs.clone())).is_some()
+                    } else {
+                        let nv = self.pvals[*v as usize];
+                        self.xot.namespace_node_mut(node).map(|n| n.set_namespace(nv)).is_some()
+                    };
+                    if !ok {
+                        return Err("the node behind an entry is not an attribute / namespace node".into());
+                    }
+                    x.val = vs;
                 }
             }
             GetMut(attr, k, v) => {
@@ -406,6 +425,16 @@ impl Sys {
             }
             view!(self.xot.attributes(e), "read-only");
             view!(self.xot.attributes_mut(e), "mutable");
+            // the convenience accessors of Xot over the same view
+            for (i, k) in self.akeys.iter().enumerate() {
+                let ex = self.attrs.iter().find(|x| x.key as usize == i);
+                if self.xot.get_attribute(e, *k).map(|x| x.to_string()) != ex.map(|x| x.val.clone()) {
+                    out.push(("attributes|xot|get_attribute".into(), String::new()));
+                }
+            }
+            if self.xot.attribute_nodes(e).collect::<Vec<_>>() != exp_nodes {
+                out.push(("attributes|xot|attribute_nodes".into(), String::new()));
+            }
         }
         // ---- namespaces
         {
@@ -443,6 +472,19 @@ impl Sys {
             }
             view!(self.xot.namespaces(e), "read-only");
             view!(self.xot.namespaces_mut(e), "mutable");
+            for k in self.pkeys.iter() {
+                let ex = exp_vec.iter().find(|x| x.0 == *k).map(|x| x.1);
+                if self.xot.get_namespace(e, *k) != ex {
+                    out.push(("namespaces|xot|get_namespace".into(), String::new()));
+                }
+            }
+            if self.xot.namespace_declarations(e) != exp_vec {
+                out.push(("namespaces|xot|namespace_declarations".into(), String::new()));
+            }
+            let pf = self.xot.prefixes(e);
+            if pf.len() != exp_vec.len() || exp_vec.iter().any(|(p, n)| pf.get(p) != Some(n)) {
+                out.push(("namespaces|xot|prefixes".into(), String::new()));
+            }
         }
         // ---- the other element keeps what the model says (nodes that were not moved stay)
         {
@@ -511,6 +553,7 @@ fn all_ops() -> Vec<Op> {
             for val in 0..2u8 {
                 v.push(Insert(attr, k, val));
                 v.push(GetMut(attr, k, val));
+                v.push(NodeSetValue(attr, k, val));
                 v.push(EntryOrInsert(attr, k, val));
                 v.push(EntryAndModify(attr, k, val));
                 v.push(EntryInsert(attr, k, val));
@@ -669,7 +712,7 @@ pub fn run(tier: Tier) -> i32 {
         "states": states,
         "transitions": transitions,
         "traces_validated_against_impl": transitions,
-        "rule": "element starting with 0-2 namespace nodes and 0-2 attribute nodes (9 starts), a second element as source of nodes; every history up to the depth bound over map-style (insert, remove, get_mut, entry or_insert / and_modify / occupied insert / occupied remove / vacant insert, clear, set_*, remove_*) and node-style (append_*_node / any_append with fresh nodes and with nodes of the other element, detach / remove of a node) updates with 3 keys x 2 values per map; after every step every accessor of the read-only and of the mutable view of both maps, the return values, node identity and the order in to_string (read by XmlRead) are compared with an ordered reference map; states = distinct (ordered contents of both maps of both elements)",
+        "rule": "element starting with 0-2 namespace nodes and 0-2 attribute nodes (9 starts), a second element as source of nodes; every history up to the depth bound over map-style (insert, remove, get_mut, entry or_insert / and_modify / occupied insert / occupied remove / vacant insert, clear, set_*, remove_*) and node-style (append_*_node / any_append with fresh nodes and with nodes of the other element, detach / remove of a node, the value setter of the node behind an entry) updates with 3 keys x 2 values per map; after every step every accessor of the read-only and of the mutable view of both maps and Xot's convenience accessors over them (get_attribute, attribute_nodes, get_namespace, namespace_declarations, prefixes), the return values, node identity and the order in to_string (read by XmlRead) are compared with an ordered reference map; states = distinct (ordered contents of both maps of both elements)",
         "bounds": {"depth": depth, "starts": 9, "ops_per_state": ops.len()},
         "levels_completed": levels,
     });
